@@ -123,6 +123,39 @@ def run(ctx, impl_only=False):
                 ctx.violate(case, 'empty diff although t1 != t2 (t1 and t2 share objects)')
             if bool(d) != bool(d2):
                 ctx.violate(case, 'sharing objects between / inside the inputs changes the verdict')
+    # ---- dictionary keys whose location has no path string (frozensets, non-finite floats, tuples that hold them): a difference at or below
+    #      such a key is still a difference, in every view
+    odd_keys = [frozenset({1, 2}), frozenset(), float('inf'), float('-inf'), (1, frozenset({'a'})), (float('inf'), 2)]
+    for _ in range(40 if ctx.thorough() else 12):
+        k = ctx.rng.choice(odd_keys)
+        inner = ctx.rng.choice([1, 'x', [1, 2], {'a': 1}, None])
+        v = {k: inner, 'other': 'x'}
+        edits = []
+        w1 = copy.deepcopy(v); w1[k] = ctx.rng.choice([2, 'y', [1, 3], {'a': 2}, 7.5]); edits.append(w1)
+        w2 = copy.deepcopy(v); del w2[k]; edits.append(w2)
+        w3 = {'other': 'x'}; edits.append(w3)
+        if isinstance(inner, (list, dict)):
+            w4 = copy.deepcopy(v)
+            if isinstance(inner, list):
+                w4[k].append(9)
+            else:
+                w4[k]['b'] = 9
+            edits.append(w4)
+        wrap = ctx.rng.choice([lambda x: x, lambda x: [x, 0], lambda x: {'top': x}])
+        for w in edits:
+            for (a, b) in ((wrap(v), wrap(w)), (wrap(w), wrap(v))):
+                for cfg in [ctx.rng.choice(CFGS) for _ in range(2)]:
+                    ctx.evaluations += 1
+                    case = {'t1': repr(a), 't2': repr(b), 'cfg': cfg, 'clause': 'empty=>equal (key without a path string)'}
+                    try:
+                        d = DeepDiff(a, b, **cfg)
+                    except Exception as e:
+                        ctx.count('raised:' + type(e).__name__); continue
+                    ctx.count('unrepresentable_key:' + ('empty' if not d else 'nonempty'))
+                    if not d and not (a == b):
+                        ctx.violate(case, 'empty diff although t1 != t2')
+                    if strict_eq(a, b) and d:
+                        ctx.violate(case, 'structurally equal values gave a non-empty diff')
     numpy_pairs(ctx)
     align_sound(ctx)
     if not impl_only:
